@@ -17,6 +17,7 @@ use ChildState::*;
 pub use communicate::Communicator;
 pub use os::ext as os_ext;
 pub use os::make_pipe;
+pub(crate) use os::set_inheritable;
 #[cfg(all(unix, subprocess_verif))]
 pub use os::verif_format_env;
 
